@@ -62,6 +62,12 @@ pub struct JudgeOpts {
 
 /// Decode `bytes` under every key type of the build and run all input-level monitors.
 pub fn judge_input(ctx: &mut Ctx, class: &str, bytes: &[u8], opts: JudgeOpts) -> Judged {
+    let j = judge_input_inner(ctx, class, bytes, opts);
+    ctx.trace_end();
+    j
+}
+
+fn judge_input_inner(ctx: &mut Ctx, class: &str, bytes: &[u8], opts: JudgeOpts) -> Judged {
     if cfg!(miri) && ctx.expired() {
         // the interpreter is ~10^4 x slower: stop at the deadline even inside a base record's mutants
         ctx.count("deadline-skips");
